@@ -614,9 +614,11 @@ def _returns_to_assign(stmts: List[ast.stmt], targets) -> Optional[List[ast.stmt
         last = i == len(stmts) - 1
         has_ret = any(isinstance(x, ast.Return) for x in ast.walk(s))
         if not has_ret:
-            if last:
+            if last and not always_exits([s]):
                 return None                 # falls off the end: would return None
             out.append(s)
+            if last:
+                return out
             continue
         if isinstance(s, ast.Return):
             if not last or s.value is None:
@@ -791,6 +793,41 @@ def normalise_control_flow(fn: ast.FunctionDef, ref_tests: List[str], ref_forms:
         if not changed:
             break
     ast.fix_missing_locations(fn)
+
+
+def sink_tail_into_branches(fn: ast.FunctionDef, ref_fn: dict) -> None:
+    """if/elif chain some of whose branches leave, followed by one closing `return E` that the reference does not have: the
+    closing statement is copied to the end of every branch that falls through (tail duplication; the inverse of hoisting)."""
+    ref_lines = {l.strip() for l in ref_fn.get("src", "").splitlines()}
+    if not ref_lines:
+        return
+    for _owner, _fld, blk in blocks_of(fn):
+        for i, st in enumerate(blk):
+            if not (isinstance(st, ast.If) and i + 2 == len(blk) and isinstance(blk[i + 1], ast.Return) and blk[i + 1].value is not None):
+                continue
+            tail = blk[i + 1]
+            if _u(tail) in ref_lines:
+                continue
+            # leaves of the chain
+            leaves = []
+
+            def collect(node):
+                leaves.append(node.body)
+                if len(node.orelse) == 1 and isinstance(node.orelse[0], ast.If):
+                    collect(node.orelse[0])
+                elif node.orelse:
+                    leaves.append(node.orelse)
+                else:
+                    leaves.append(None)         # implicit empty else falls through
+            collect(st)
+            if None in leaves or not any(always_exits(b) for b in leaves) or all(always_exits(b) for b in leaves):
+                continue
+            for b in leaves:
+                if not always_exits(b):
+                    b.append(copy.deepcopy(tail))
+            del blk[i + 1]
+            ast.fix_missing_locations(fn)
+            return sink_tail_into_branches(fn, ref_fn)
 
 
 def hoist_common_tail(fn: ast.FunctionDef, ref_fn: dict) -> None:
